@@ -124,3 +124,5 @@ w('C06', 'fixed_const_ill_typed', 'CONST c% = 7 + "t"\n')
 w('C06', 'fixed_field_declaration_in_sub', 'SUB host\nsb AS INTEGER\nEND SUB\n')
 w('C06', 'fixed_input_stray_separator', 'INPUT ;; wx$\nINPUT , y\n')
 w('C01', 'fixed_deftype_array_parameter', 'DEFLNG g\nDIM ga(3)\nga(1) = 70000\nCALL v(ga())\nSUB v (g2())\nPRINT g2(1)\nEND SUB\n', {'prints': ' 70000 \r\n'})
+w('C06', 'fixed_lbound_parenthesized_array', 'DIM a(3)\nPRINT LBOUND((a))\nPRINT UBOUND((a), 1)\n')
+w('C07', 'fixed_using_trailing_underscore', 'x$ = "##_"\nPRINT USING x$; 5\nPRINT "no"\n')
